@@ -22,6 +22,7 @@ mod sys;
 pub mod sched;
 mod cbc;
 mod conc;
+mod ft;
 mod mlog;
 mod wu;
 mod mgrc;
@@ -52,6 +53,7 @@ fn main() {
         "sys" => sys::run_case,
         "conc" => conc::run_case,
         "cbc" => cbc::run_case,
+        "ft" => ft::run_case,
         "mlog" => mlog::run_case,
         "wu" => wu::run_case,
         "mgrc" => mgrc::run_case,
